@@ -630,8 +630,16 @@ __wrap_connect(int fd, const struct sockaddr * sa, socklen_t salen)
 		s->cstate = 1;
 		if (!a.never) {
 			struct pev e = { PE_CONNDONE, a.delay_ns, a.async_result_errno, -1 };
+			int dd = simalloc_depth;
 
-			vk_script(s, &e, 1);
+			/* the conclusion of the connect comes before anything the peer does afterwards */
+			simalloc_depth = 0;
+			s->ev = realloc(s->ev, (size_t)(s->nev + 2) * sizeof(struct pev));
+			memmove(s->ev + s->evpos + 1, s->ev + s->evpos, (size_t)(s->nev - s->evpos) * sizeof(struct pev));
+			s->ev[s->evpos] = e;
+			s->nev++;
+			s->ev_base_ns = vk_now_ns;
+			simalloc_depth = dd;
 		}
 		TR(0xA4, fd, port, "connect(fd=%d, port=%d) -> -1 %s (%s)", fd, port, a.rc_errno == EINTR ? "EINTR" : "EINPROGRESS",
 		    a.never ? "never concludes" : a.async_result_errno ? "will fail" : "will succeed");
